@@ -205,6 +205,37 @@ class VQueue(object):
         s.point(s.current, "get", lambda: len(self.q) > 0)
         return pickle.loads(self.q.popleft())
 
+    # the rest of the multiprocessing.Queue interface (a change to the library may start using it)
+    def put_nowait(self, x):
+        self.put(x)
+
+    def get_nowait(self):
+        import queue
+        s = S()
+        s.point(s.current, "get_nowait")
+        if not self.q:
+            raise queue.Empty()
+        return pickle.loads(self.q.popleft())
+
+    def empty(self):
+        s = S()
+        s.point(s.current, "empty")
+        return not self.q
+
+    def qsize(self):
+        s = S()
+        s.point(s.current, "qsize")
+        return len(self.q)
+
+    def close(self):
+        pass
+
+    def join_thread(self):
+        pass
+
+    def cancel_join_thread(self):
+        pass
+
 
 class VConn(object):
     def __init__(self, inq, outq):
@@ -220,6 +251,14 @@ class VConn(object):
         s = S()
         s.point(s.current, "recv", lambda: len(self.inq) > 0)
         return pickle.loads(self.inq.popleft())
+
+    def poll(self, timeout=0.0):
+        s = S()
+        s.point(s.current, "poll")
+        return len(self.inq) > 0
+
+    def close(self):
+        pass
 
 
 def VPipe():
